@@ -92,18 +92,18 @@ func Pack(samples []int, P int) []byte {
 
 type J2KCase struct {
 	W, H, Comps, P int
-	Signed        bool
-	Levels        int
-	CBW, CBH      int
-	PW, PH        int
-	Prog          int
-	Layers        int
-	MCT           bool
-	TW, TH        int
-	Content       int
-	PCRD          bool
-	AppendLL      bool
-	Seed          uint64
+	Signed         bool
+	Levels         int
+	CBW, CBH       int
+	PW, PH         int
+	Prog           int
+	Layers         int
+	MCT            bool
+	TW, TH         int
+	Content        int
+	PCRD           bool
+	AppendLL       bool
+	Seed           uint64
 }
 
 func (k J2KCase) String() string {
